@@ -221,6 +221,29 @@ def trace_part(chk, n_seg, n_file):
         file_cases.append(rec)
 
     run_file()
+    # two big files: the ANALYSIS segment lies beyond 10,000,000 bytes, so its HEADER offsets fill their 8-character fields
+    for version, an_in in (('FCS2.0', 'header'), ('FCS3.0', 'header'), ('FCS3.1', 'text')):
+        req = fcsgen.sample_pairs(1, ['A'], [8], [256], datatype='I')
+        c = [('AK1', 'av/1'), ('AK2', 'x')]
+        blob, lay = fcsgen.build(version=version, pairs=req + [('K0', 'v0')], data=b'\x07', delim='/', analysis_pairs=c,
+                                 analysis_in=an_in, pad_tail=10000000 + (345678 if version == 'FCS3.0' else 0))
+        path = os.path.join(d0, 'big.fcs')
+        with open(path, 'wb') as f:
+            f.write(blob)
+        with warnings.catch_warnings(record=True) as w:
+            warnings.simplefilter('always')
+            try:
+                ff = FlowCal.io.FCSFile(path)
+                k = 'ok'
+            except Exception:
+                k = 'err'
+            awarn = any('ANALYSIS segment could not be parsed' in str(x.message) for x in w)
+        os.remove(path)
+        tb, te = lay['text_begin'], lay['text_end']
+        file_cases.append({'op': 'merge', 'd': ord('/'), 'q': list(blob[tb:te + 1]), 'sq': [],
+                           'aq': list(blob[lay['ab']:lay['ae'] + 1]), 'k': k, 'dict': proj_dict(ff.text) if k == 'ok' else [],
+                           'adict': proj_dict(ff.analysis) if k == 'ok' else [], 'awarn': awarn,
+                           'meta': {'version': version, 'analysis_in': an_in, 'analysis_begin': lay['ab']}})
     recs += file_cases
 
     # negative control: corrupt one logged value of one well-formed record
